@@ -134,14 +134,14 @@ func render(v ssa.Value, d int) string {
 	case *ssa.Parameter:
 		return v.Name()
 	case *ssa.FreeVar:
-		return v.Name()
+		return "&" + v.Name()
 	case *ssa.Const:
 		return renderConst(v)
 	case *ssa.Global:
 		if v.Pkg != nil {
-			return v.Pkg.Pkg.Name() + "." + v.Name()
+			return "&" + v.Pkg.Pkg.Name() + "." + v.Name()
 		}
-		return v.Name()
+		return "&" + v.Name()
 	case *ssa.Function:
 		return "func:" + fnShort(v)
 	case *ssa.Builtin:
@@ -152,6 +152,11 @@ func render(v ssa.Value, d int) string {
 		}
 		return "&new:" + typeShortNoPtr(v.Type())
 	case *ssa.FieldAddr:
+		if al, ok := v.X.(*ssa.Alloc); ok {
+			if sv := singleStore(al, v); sv != nil {
+				return "&" + render(sv, d+1) + "." + fieldName(v.X, v.Field)
+			}
+		}
 		return "&" + strings.TrimPrefix(render(v.X, d+1), "&") + "." + fieldName(v.X, v.Field)
 	case *ssa.Field:
 		return render(v.X, d+1) + "." + fieldName(v.X, v.Field)
@@ -168,6 +173,9 @@ func render(v ssa.Value, d int) string {
 	case *ssa.UnOp:
 		switch v.Op {
 		case token.MUL:
+			if sv := singleStore(v.X, v); sv != nil {
+				return render(sv, d+1)
+			}
 			return deref(render(v.X, d+1))
 		case token.NOT:
 			return "!" + render(v.X, d+1)
@@ -314,4 +322,80 @@ func RenderInstr(in ssa.Instruction) string {
 		return Render(x)
 	}
 	return in.String()
+}
+
+// singleStore: if addr is a local Alloc that is assigned exactly once, whose
+// address does not escape (all other uses are loads or field loads), and the
+// assignment dominates the use, return the assigned value. Such locals are
+// transparent in renderings: `blockID, ok := f(); g(blockID.Hash)` renders as
+// g(f()#0.Hash), which gives provenance across helper variables.
+func singleStore(addr ssa.Value, use ssa.Instruction) ssa.Value {
+	al, ok := addr.(*ssa.Alloc)
+	if !ok {
+		return nil
+	}
+	st := allocSingleStore(al)
+	if st == nil {
+		return nil
+	}
+	if use != nil && use.Block() != nil && st.Block() != nil {
+		if use.Parent() != st.Parent() {
+			return nil
+		}
+		if !Precedes(st, use) {
+			return nil
+		}
+	}
+	return st.Val
+}
+
+var singleStoreCache = map[*ssa.Alloc]*ssa.Store{}
+var singleStoreDone = map[*ssa.Alloc]bool{}
+
+func allocSingleStore(al *ssa.Alloc) *ssa.Store {
+	if singleStoreDone[al] {
+		return singleStoreCache[al]
+	}
+	singleStoreDone[al] = true
+	refs := al.Referrers()
+	if refs == nil {
+		return nil
+	}
+	var st *ssa.Store
+	var onlyLoads func(v ssa.Value, top bool) bool
+	onlyLoads = func(v ssa.Value, top bool) bool {
+		rs := v.Referrers()
+		if rs == nil {
+			return false
+		}
+		for _, r := range *rs {
+			switch x := r.(type) {
+			case *ssa.UnOp:
+				if x.Op != token.MUL {
+					return false
+				}
+			case *ssa.FieldAddr:
+				if !onlyLoads(x, false) {
+					return false
+				}
+			case *ssa.DebugRef:
+			case *ssa.Store:
+				if !top || x.Addr != v || x.Val == v {
+					return false
+				}
+				if st != nil {
+					return false
+				}
+				st = x
+			default:
+				return false
+			}
+		}
+		return true
+	}
+	if !onlyLoads(al, true) || st == nil {
+		return nil
+	}
+	singleStoreCache[al] = st
+	return st
 }
